@@ -293,6 +293,25 @@ func init() {
 			}
 			pcs = append(pcs, baseCase("c14-type-collisions", M{"type": "object", "properties": props}, []any{doc}, fmt.Sprintf("n=%d", n)))
 		}
+		// a field name given by the schema extension (goJSONSchema.identifier) that equals the DERIVED name of a sibling,
+		// the sibling sorting before or after it, one or two such members: the struct's field names stay distinct and
+		// every key stays bound to its own field
+		for ui, us := range []struct{ plain, ext []string }{
+			{[]string{"alpha", "beta"}, []string{"zeta=Alpha"}}, {[]string{"zeta", "beta"}, []string{"alpha=Zeta"}},
+			{[]string{"alpha"}, []string{"mid=Alpha", "zeta=Alpha"}}, {[]string{"a-b", "a_b"}, []string{"zz=AB"}}, {[]string{"name"}, []string{"other=Name", "aaa=Name"}},
+		} {
+			props, doc := M{}, M{}
+			for i, nm := range us.plain {
+				props[nm] = M{"type": "integer"}
+				doc[nm] = i + 1
+			}
+			for i, e := range us.ext {
+				kv := strings.SplitN(e, "=", 2)
+				props[kv[0]] = M{"type": "integer", "goJSONSchema": M{"identifier": kv[1]}}
+				doc[kv[0]] = 10 + i
+			}
+			pcs = append(pcs, baseCase("c14-type-collisions", M{"type": "object", "properties": props}, []any{doc}, fmt.Sprintf("user-identifier-equals-derived #%d", ui)))
+		}
 		// TITLES on nested object members that normalise to the name of an enclosing type (root, parent, grandparent), with
 		// and without --struct-name-from-title: every object keeps a type of its own
 		for ti, titles := range [][]string{{"root", "Root org", "root_org_unit"}, {"Root", "root", "ROOT"}, {"root org", "root", "Root"}, {"org", "unit", "leaf"}} {
